@@ -299,12 +299,40 @@ pub fn run(ctx: &Ctx, st: &mut Stats) -> Vec<Violation> {
         return v;
     }
     v.extend(large_frames(ctx, st));
+    if !v.is_empty() {
+        return v;
+    }
+    v.extend(super::soak::run(ctx, st, "C02", soak_jobs(ctx)));
     v
+}
+
+/// long single-thread encode histories (soak.rs): configs differing in matrix, range or depth
+fn soak_jobs(ctx: &Ctx) -> Vec<super::soak::Job> {
+    use super::soak::{with_periods, Side, PERIODS};
+    use crate::conv::{Edge, Kind};
+    let mut jobs = Vec::new();
+    for (u8_out, depth) in [(true, 8u8), (false, 10), (false, 16)] {
+        let a = cfg(STD_MC[0], TC::BT1886, CP::BT709, depth, false, (0, 0));
+        let mut variants = vec![cfg(STD_MC[5], TC::BT1886, CP::BT709, depth, false, (0, 0)), cfg(STD_MC[0], TC::BT1886, CP::BT709, depth, true, (0, 0)), cfg(STD_MC[6], TC::BT1886, CP::BT709, depth, true, (0, 0))];
+        if !u8_out {
+            variants.push(cfg(STD_MC[0], TC::BT1886, CP::BT709, if depth == 16 { 12 } else { 9 }, false, (0, 0)));
+        }
+        for (i, b) in variants.into_iter().enumerate() {
+            if ctx.light && i > 0 {
+                continue;
+            }
+            for by_ref in [true, false] {
+                let e = Edge::RgbToYuv { by_ref, u8_out };
+                jobs.extend(with_periods(Side { kind: Kind::Rgb, edge: e, cfg: a }, Side { kind: Kind::Rgb, edge: e, cfg: b }, &PERIODS));
+            }
+        }
+    }
+    jobs
 }
 
 /// real-size images (see gen::LARGE_SIZES): size-gated paths (tiling, threads, tables) only run there
 fn large_frames(ctx: &Ctx, st: &mut Stats) -> Vec<Violation> {
-    let sizes: Vec<(usize, usize)> = if ctx.light { vec![(257, 255), (521, 511), (8200, 3)] } else if ctx.quick() { crate::gen::LARGE_SIZES[..8].to_vec() } else { crate::gen::LARGE_SIZES.to_vec() };
+    let sizes: Vec<(usize, usize)> = if ctx.light { vec![(257, 255), (521, 511), (8200, 3)] } else { crate::gen::large_sizes(ctx.quick()) };
     let seed0 = ctx.seed;
     par_sweep(ctx, st, sizes.len() as u64, |lo, hi, st| {
         for j in lo..hi {
@@ -404,6 +432,9 @@ fn lattice(ctx: &Ctx, st: &mut Stats) -> Vec<Violation> {
 }
 
 pub fn replay(v: &Value) -> Result<(), String> {
+    if v.get("part").and_then(|p| p.as_str()) == Some("soak") {
+        return super::soak::replay("C02", v);
+    }
     let cfg = cfg_from_json(v.get("cfg").ok_or("cfg")?).ok_or("bad cfg")?;
     let seeded = v.get("seeded").and_then(|sd| Some(Px::Seeded { stratum: sd.get("stratum")?.as_u64()? as u8, seed: sd.get("seed")?.as_str()?.parse().ok()? }));
     let px: Vec<[f32; 3]> = if seeded.is_some() { vec![] } else { v.get("pixels").and_then(|p| p.as_array()).ok_or("pixels")?.iter().filter_map(j2px).collect() };
